@@ -5,7 +5,7 @@ through `String.splitOn`, which the kernel does not reduce).
 A. tests of the six sensitivity statements on a small CAS (the tables differ);
 B. counterexamples that force the hypotheses which are not in the property text (the tables are EQUAL although the
    content differs);
-C. a discrepancy between model and code found on the way (recursion budget of `renderVal`).
+C. a discrepancy between model and code found on the way (recursion budget of `renderVal`) — since repaired in the model; the instance is now a positive test.
 
 **B1, B2 and B7 are reachable through the public API on CASes that satisfy the side condition of C20, and were replayed
 on the Python code (`/venv/bin/python`, `PYTHONPATH=/repo`): `cas_to_comparable_text` returns the same text for two CASes
@@ -188,18 +188,36 @@ def hpB7 : Heap :=
 def cex_array_target : Bool := sameTable (run hpB7 [0] [0, 1, 2]) (run (upd hpB7 0 "t" (.ref 2)) [0] [0, 1, 2])
 #guard cex_array_target
 
-/-! ### C. model against code: recursion budget
+/-! ### C. model against code: recursion budget (repaired)
 
-`renderCols`/`renderRow` call `renderVal` with `hp.length + 1` levels, but one level of array nesting takes two
-(`.ref arr` → `.refs l` → `.ref e`).  Three FSArrays nested in each other in a heap of four objects exhaust it: the model
-answers `RuntimeError`, the code prints `[[[]]]` (checked: `H(begin=0, end=1, arr=FSA(elements=[FSA(elements=[FSA(elements=[])])]))`).
-`2 * hp.length + 2` would do.  `renderFrom_total` therefore carries the budget in its hypotheses (`FuelOk … (hp.length + 1)`). -/
+`renderCols`/`renderRow` used to call `renderVal` with `hp.length + 1` levels, but one level of array nesting takes two
+(`.ref arr` → `.refs l` → `.ref e`): three FSArrays nested in each other in a heap of four objects exhausted it (the model
+answered `RuntimeError`, the code prints `[[[]]]` — checked:
+`H(begin=0, end=1, arr=FSA(elements=[FSA(elements=[FSA(elements=[])])]))`).  The budget of the model is now
+`2 * hp.length + 2`, which covers every acyclic nesting (`renderFrom_total`: `FuelOk … (2 * hp.length + 2)`); a cyclic
+nesting still runs out (`RuntimeError`, Python: `RecursionError`). -/
 
 def hpC3 : Heap :=
   [ holder 6 .none .none .none .none (.ref 1) .none,
     arrObj FS_ARRAY 7 (.refs [some 2]), arrObj FS_ARRAY 8 (.refs [some 3]), arrObj FS_ARRAY 9 (.refs []) ]
-def model_fuel : Bool := match run hpC3 [0] [0] with | .error .runtimeError => true | _ => false
+/-- the `arr` cell of the first row of the first section (columns: anchor, covered text, `arr`, …) -/
+def arrCell (r : Except Err (List Section)) : String :=
+  match r with
+  | .ok (s :: _) => match s.rows with
+    | (_ :: _ :: c :: _) :: _ => toString (repr c)
+    | _ => "?"
+  | .ok [] => "?"
+  | .error e => "error " ++ toString (repr e)
+/-- the former artefact, now a positive test: the model renders `[[[]]]` -/
+def model_fuel : Bool :=
+  arrCell (run hpC3 [0] [0]) == toString (repr (Cell.list [Cell.list [Cell.list []]]))
 #guard model_fuel
+#guard isOk (run hpC3 [0] [0])
 #guard isOk (run (hpC3.take 3 |>.set 2 (arrObj FS_ARRAY 8 (.refs []))) [0] [0])
+/-- the longest acyclic chain a heap of four objects can hold (every object but the holder an array in the next) uses
+    `2 * 3 + 1` levels — within `2 * 4 + 2`; a cycle of arrays still exhausts the budget -/
+def model_fuel_cycle : Bool :=
+  match run (hpC3.set 3 (arrObj FS_ARRAY 9 (.refs [some 1]))) [0] [0] with | .error .runtimeError => true | _ => false
+#guard model_fuel_cycle
 
 end Cassis.Comparable.SensCheck
